@@ -36,7 +36,7 @@ func (c13) Assumptions() []string {
 	return []string{"siblings are kept in flight with handler-side delays (the handler object lives in the host process)"}
 }
 
-var c13Payload = []string{"string", "error", "nil-map write", "nil dereference", "index out of range", "custom struct", "panic(nil)", "1 MiB string", "pointer", "String() panics", "http.ErrAbortHandler"}
+var c13Payload = []string{"string", "error", "nil-map write", "nil dereference", "index out of range", "custom struct", "panic(nil)", "1 MiB string", "pointer", "String() panics", "http.ErrAbortHandler", "codec-style API error", "error wrapping a codec-style API error"}
 var c13Kinds = []string{"unary", "notification", "channel", "reverse", "custom", "after-cancel", "concurrent", "batch", "stalled-peer"}
 
 func (c13) Plan(tier string, seed int64) []core.Scenario {
